@@ -613,14 +613,25 @@ def execute(spec, fault, bump):
                 if spec.get("stepsize"):
                     kwargs["stepsize"] = spec["stepsize"]
                 if spec["entry"] == "Project.calibrate":
-                    same_bounds = len({(a[2], a[3]) for a in adjustables}) == 1 and all(a[1] is None for a in adjustables)
-                    if same_bounds:
-                        # the documented short form: plain names + default scale limits (expanded to every population)
-                        result = P.calibrate(parset=parset, adjustables=[a[0] for a in adjustables], measurables=list(measurables), max_time=spec["max_time"], default_min_scale=adjustables[0][2], default_max_scale=adjustables[0][3], **kwargs)
+                    # the documented short forms, mixed with full tuples: an adjustable for all populations (pop None) is
+                    # given as a plain name when its limits are the call's default limits; likewise a measurable for
+                    # all populations whose weight / metric are the call's defaults
+                    kw2 = {}
+                    first_none = next((a for a in adjustables if a[1] is None), None)
+                    adj_arg = list(adjustables)
+                    if first_none is not None:
+                        kw2["default_min_scale"], kw2["default_max_scale"] = first_none[2], first_none[3]
+                        adj_arg = [a[0] if (a[1] is None and (a[2], a[3]) == (first_none[2], first_none[3])) else a for a in adjustables]
                         if fault is None:
                             bump("probe:adjustables_given_as_names")
-                    else:
-                        result = P.calibrate(parset=parset, adjustables=list(adjustables), measurables=list(measurables), max_time=spec["max_time"], **kwargs)
+                    first_mnone = next((m for m in measurables if m[1] is None), None)
+                    meas_arg = list(measurables)
+                    if first_mnone is not None:
+                        kw2["default_weight"], kw2["default_metric"] = first_mnone[2], first_mnone[3]
+                        meas_arg = [m[0] if (m[1] is None and (m[2], m[3]) == (first_mnone[2], first_mnone[3])) else m for m in measurables]
+                        if fault is None:
+                            bump("probe:measurables_given_as_names")
+                    result = P.calibrate(parset=parset, adjustables=adj_arg, measurables=meas_arg, max_time=spec["max_time"], **kw2, **kwargs)
                 else:
                     adj = [(a[0], a[1], a[2], a[3]) for a in adjustables]
                     result = acal.calibrate(P, parset, adj, list(measurables), max_time=spec["max_time"], **kwargs)
